@@ -106,7 +106,36 @@ def run(ctx, pid, kinds, n_quick, n_thorough, polite=60, extra_assumptions=()):
                           % (results[i]["scenario"]["kind"], msg[:200]))
         else:
             ctx.known_or_violation(key, replay_obj(i), "supervisor crash: " + msg[:120])
-    if rejected and not unexplained:
+    # ---- liveness at quiescence (C03: a shutdown call never returns; C04: Run() / an instance waits for ever
+    #      although no command is alive).  Decided by the scheduler: nothing enabled, something unfinished.
+    hangs = []
+    if pid in ("C03", "C04"):
+        for i, r in enumerate(results):
+            if not r.get("quiescent") or r.get("alive_at_end"):
+                continue
+            bi, bt = r.get("blocked_insts") or [], r.get("blocked_threads") or []
+            calls = r["scenario"]["calls"]
+            sd_blocked = [c for c in bt if c < len(calls) and calls[c]["op"] == "shutdown"]
+            if (pid == "C04" and (bi or bt)) or (pid == "C03" and sd_blocked):
+                hangs.append(i)
+    hang_unexpl = []
+    for i in hangs:
+        wn = win_names(wcodes[i]) if i < len(wcodes) else []
+        hit = [w for w in wn if ctx.is_known("window:" + w)]
+        if hit:
+            explained.setdefault(hit[0], []).append(i)
+            ctx.known_or_violation("window:" + hit[0], replay_obj(i), "%s: blocked for ever at quiescence in the %s window" % (pid, hit[0]))
+        else:
+            hang_unexpl.append(i)
+    if hang_unexpl:
+        i = hang_unexpl[0]
+        r = results[i]
+        ctx.violation(dict(replay_obj(i), blocked_instances=[r["inst_names"].get(str(k), k) for k in (r.get("blocked_insts") or [])],
+                           blocked_calls=[r["scenario"]["calls"][c] for c in (r.get("blocked_threads") or []) if c < len(r["scenario"]["calls"])],
+                           hanging_histories=hang_unexpl[:50]),
+                      "%s: at quiescence (nothing enabled, no command alive) %d histories have unfinished instances / calls: %s never returns or an instance waits for ever"
+                      % (pid, len(hang_unexpl), "a shutdown call" if pid == "C03" else "Run()"))
+    if rejected and not unexplained and not hang_unexpl:
         i = rejected[0]
         ctx.violation(dict(replay_obj(i), rejected_histories=rejected[:50], correspondence="corr_Sup (Sup.Model.accept on the recorded history)",
                            theorems_resting_on_it=rep["theorems"]),
@@ -134,6 +163,7 @@ def run(ctx, pid, kinds, n_quick, n_thorough, polite=60, extra_assumptions=()):
         "traces_validated_against_impl": len(results) - len(rejected) - len(crashed),
         "histories_rejected_by_model": len(rejected),
         "monitor_failures": len(bad), "monitor_failures_outside_windows": len(unexplained),
+        "quiescent_histories": sum(1 for r in results if r.get("quiescent")), "hangs_at_quiescence": len(hangs),
         "histories_through_known_windows": win_hist,
         "harness_stats": stats,
         "exhaustive": False,
